@@ -13,6 +13,7 @@ mod gen;
 mod monitor;
 mod props;
 mod rng;
+mod wire;
 
 use monitor::Monitor;
 use rng::Rng;
